@@ -145,7 +145,7 @@ fn thread_program(fx: Arc<Fixture>, tid: usize, mut seed: u64, n_ops: usize) {
     let cc = &fx.cc;
     for _ in 0..n_ops {
         OPS.fetch_add(1, Ordering::Relaxed);
-        let op = xorshift(&mut seed) % 11;
+        let op = xorshift(&mut seed) % 13;
         // an extra scheduling point between operations
         thread::sleep(std::time::Duration::from_millis(0));
         match op {
@@ -274,6 +274,16 @@ fn thread_program(fx: Arc<Fixture>, tid: usize, mut seed: u64, n_ops: usize) {
                         assert_eq!(s.to_vec(), sec.to_vec(), "C19: refreshed key secret");
                     }
                 }
+            }
+            11 | 12 => {
+                // calls that fail when made alone must fail here too, and must not disturb others
+                let r = cc.encaps(&fx.mpk, &AccessPolicy::parse("DPT::NOPE && SEC::TOP").unwrap());
+                assert!(r.is_err(), "C19: encaps for an unknown attribute succeeded");
+                let r = cc.encaps(&fx.mpk, &AccessPolicy::parse("DPT::FIN && DPT::HR").unwrap());
+                assert!(r.is_err(), "C19: encaps for two attributes of one dimension succeeded");
+                let r = cc.generate_user_secret_key(&mut msk, &AccessPolicy::parse("NOPE::X").unwrap());
+                assert!(r.is_err(), "C19: keygen for an unknown dimension succeeded");
+                LOCKED_CALLS.fetch_add(3, Ordering::Relaxed);
             }
             _ => {
                 // re-encapsulation with this thread's MSK (only meaningful before it was re-keyed
@@ -468,7 +478,7 @@ fn main() {
                     "evaluations": iterations,
                     "distinct_nontrivial": iterations,
                     "rule": "one evaluation = one complete execution of the scenario under one seeded thread schedule (shuttle RandomScheduler / PctScheduler depth 2 and 3, one scheduler seed per worker process). Each execution draws from shuttle::rand a fresh fixture seed, 2-4 threads and 2-5 operations per thread, so the (workload, schedule) pairs are distinct executions by construction of the seeded generators; every execution has >= 2 threads contending for the instance's RNG mutex, which is the non-triviality criterion. The count is the sum of the workers' iteration counters, measured.",
-                    "samples": [{"scheduler": "random", "threads": "2-4", "ops_per_thread": "2-5", "operations": ["encaps+decaps", "decaps stored", "pke encrypt+decrypt", "pke decrypt stored", "header generate+decrypt", "header decrypt stored", "keygen on private MSK", "rekey + refresh on private MSK/USK", "recaps"]}],
+                    "samples": [{"scheduler": "random", "threads": "2-4", "ops_per_thread": "2-5", "operations": ["encaps+decaps", "decaps stored", "pke encrypt+decrypt", "pke decrypt stored", "header generate+decrypt", "header decrypt stored", "keygen on private MSK", "rekey + refresh on private MSK/USK", "recaps", "failing encaps / keygen (invalid policy)"]}],
                     "schedulers": done.iter().map(|(k, n)| serde_json::json!({"kind": k, "iterations": n})).collect::<Vec<_>>(),
                     "threads_spawned": threads,
                     "operations_executed": ops,
